@@ -103,6 +103,28 @@ func (n eqNode) build() any {
 		return []any{n.Ss[0], n.Vs[0], n.Ss[1] == "t"}
 	case "anyarr":
 		return [2]any{n.Ss[0], n.Vs[0]}
+	case "anymix": // a []any / [2]any leaf whose entries are not all bare primitives
+		v0, v1 := n.Vs[0], n.Vs[1]
+		switch n.Kind {
+		case "ptr":
+			return []any{n.Ss[0], &v0, v1}
+		case "nil":
+			if n.Cap == 1 {
+				return []any{"no-longer-nil", n.Ss[0], v0}
+			}
+			return []any{nil, n.Ss[0], v0}
+		case "slice":
+			return []any{n.Ss[0], []int{v0, v1}}
+		case "map":
+			return []any{map[string]int{n.Ss[0]: v0}, v1}
+		case "struct":
+			return []any{eqStruct{v0, n.Ss[0]}, &eqStruct{v1, n.Ss[0]}}
+		case "arr":
+			return [2]any{&v0, nil}
+		case "nested":
+			return []any{[]any{n.Ss[0], &v0}, [1]any{v1}}
+		}
+		panic(n.Kind)
 	case "fslice":
 		f := make([]float64, len(n.Vs))
 		for i, v := range n.Vs {
@@ -278,6 +300,8 @@ func (n eqNode) String() string {
 		return fmt.Sprintf("sarr%q", n.Ss)
 	case "imap", "nstruct", "anyslice", "anyarr":
 		return fmt.Sprintf("%s%v%q", n.T, n.Vs, n.Ss)
+	case "anymix":
+		return fmt.Sprintf("anymix-%s%d%v%q", n.Kind, n.Cap, n.Vs, n.Ss)
 	case "typed":
 		return fmt.Sprintf("%s(%d)", n.Kind, n.Vs[0])
 	case "barr":
@@ -383,6 +407,25 @@ func (n eqNode) mutants() []eqNode {
 				m2.Vs = m2.Vs[:len(m2.Vs)-1]
 				add(m2, "slice one element shorter")
 			}
+		}
+	case "anymix":
+		for i := range n.Vs {
+			if (n.Kind == "arr" || n.Kind == "nil") && i == 1 {
+				continue // not part of the value
+			}
+			m := cloneNode(n)
+			m.Vs[i] += 3
+			add(m, fmt.Sprintf("anymix(%s) number %d changed", n.Kind, i))
+		}
+		if n.Kind != "arr" {
+			m := cloneNode(n)
+			m.Ss[0] += "'"
+			add(m, "anymix("+n.Kind+") string changed")
+		}
+		if n.Kind == "nil" {
+			m := cloneNode(n)
+			m.Cap = 1
+			add(m, "anymix nil entry replaced by a value")
 		}
 	case "anyslice", "anyarr":
 		m := cloneNode(n)
@@ -579,6 +622,9 @@ func eqLeaves() []eqNode {
 		{T: "typed", Kind: "int8", Vs: []int{6}}, {T: "typed", Kind: "int16", Vs: []int{6}}, {T: "typed", Kind: "uint", Vs: []int{6}}, {T: "typed", Kind: "uint32", Vs: []int{6}},
 		{T: "typed", Kind: "uint64", Vs: []int{6}}, {T: "typed", Kind: "complex64", Vs: []int{6}}, {T: "typed", Kind: "*complex64", Vs: []int{6}}, {T: "typed", Kind: "[]complex64", Vs: []int{6}},
 		{T: "anyslice", Vs: []int{1}, Ss: []string{"a", "t"}}, {T: "anyarr", Vs: []int{1}, Ss: []string{"a"}},
+		{T: "anymix", Kind: "ptr", Vs: []int{1, 2}, Ss: []string{"a"}}, {T: "anymix", Kind: "nil", Vs: []int{1, 2}, Ss: []string{"a"}}, {T: "anymix", Kind: "slice", Vs: []int{1, 2}, Ss: []string{"a"}},
+		{T: "anymix", Kind: "map", Vs: []int{1, 2}, Ss: []string{"a"}}, {T: "anymix", Kind: "struct", Vs: []int{1, 2}, Ss: []string{"a"}}, {T: "anymix", Kind: "arr", Vs: []int{1, 2}, Ss: []string{"a"}},
+		{T: "anymix", Kind: "nested", Vs: []int{1, 2}, Ss: []string{"a"}},
 		{T: "barr", Kind: "[3]byte", Vs: []int{1, 2, 3}}, {T: "barr", Kind: "[]byte", Vs: []int{1, 2, 3}}, {T: "barr", Kind: "*[3]byte", Vs: []int{1, 2, 3}},
 		{T: "barr", Kind: "[2]uint16", Vs: []int{1, 2}}, {T: "barr", Kind: "[2]bool", Vs: []int{1, 2}}, {T: "barr", Kind: "struct{[2]byte}", Vs: []int{1, 2, 4}},
 		{T: "barr", Kind: "map[string][2]byte", Vs: []int{1, 2}}, {T: "barr", Kind: "[2][2]byte", Vs: []int{1, 2, 4}},
